@@ -462,6 +462,11 @@ func checkC26(c *Ctx) (string, []string) {
 		c.Check(ok, "C26.posterior-rebuilt", stfPkg+".RunSTF · "+comp.name, runSTF.Pos(), "set on every successful path", fmt.Sprintf("no setter of %s (%v) is called on every successful path of RunSTF: a value written by a rejected block can be committed by the next accepted one", comp.name, comp.setters))
 	}
 	c.Note("γ_z is not in the must-set: on the epoch-change arm SetGammaZ is conditional on the ring commitment being computed (an error there is logged, not returned); on the same-epoch arm it is copied from the prior state. Reported as an observation: it needs a failing ring verifier to matter, which cannot be constructed offline.")
+	getterReturnsState := false
+	if g := c.TryFn(bcPkg, "PosteriorStates.GetState"); g != nil {
+		rs := returnShapes(g)["ret"]
+		getterReturnsState = len(rs) == 1 && (rs[0] == "*p0.state" || rs[0] == "p0.state")
+	}
 	for _, cf := range []*ssa.Function{commitA, commitB} {
 		ho := robustOpts
 		ho.inline = func(g *ssa.Function) bool {
@@ -476,6 +481,11 @@ func checkC26(c *Ctx) (string, []string) {
 		has := map[string]bool{}
 		for _, e := range effs {
 			has[e] = true
+			// the state of a fresh posterior container read through its getter is the same value as read from the field
+			// (the getter is checked to return the field)
+			if getterReturnsState {
+				has[strings.ReplaceAll(e, "post.GetState(internal/blockchain.NewPosteriorStates())", "*internal/blockchain.NewPosteriorStates().state")] = true
+			}
 		}
 		ok := true
 		for _, w := range want {
